@@ -293,7 +293,7 @@ func c11Run(c *harness.Check, cs callCase) string {
 
 // ---------------------------------------------------------------- value pools
 
-var c11Strings = []string{"", "a", "abc", "Hello World", "héllo", "日本語", "éa", "ÀB", "  x  ", "\tpad\n", "a,b,,c", "x y z", "12", "-5", "007", "0", "aXbXc", "ß", "a😀b", "abcabc"}
+var c11Strings = []string{"", "a", "abc", "Hello World", "héllo", "日本語", "éa", "ÀB", "  x  ", "\tpad\n", "a,b,,c", "x y z", "12", "-5", "007", "0", "aXbXc", "ß", "a😀b", "abcabc", "-", "+", "--", "-x", "."}
 
 func c11StrArgs() []V {
 	return []V{refint.StrV(""), refint.StrV(" "), refint.StrV(","), refint.StrV("a"), refint.StrV("X"), refint.StrV("é"), refint.StrV("..."), refint.StrV("ab"), refint.StrV("日")}
@@ -398,7 +398,7 @@ func TestC11_SmallDomains(t *testing.T) {
 		}
 		run(refint.StrV(s), "at")
 	}
-	for _, s := range []string{"12", "-5", "0", "abc", "", "x"} {
+	for _, s := range []string{"12", "-5", "0", "abc", "", "x", "-", "+", "--", "-x", ".", "é"} {
 		for n := int64(-2); n <= 6; n++ {
 			run(refint.StrV(s), "decimal", refint.StrV("."), refint.IntV(n))
 			run(refint.StrV(s), "decimal", refint.StrV(","), refint.IntV(n))
